@@ -211,33 +211,147 @@ Definition goal (obs : list (list ocall)) (x : st) : bool :=
   beq_list Nat.eqb (done_count x)
     (map (fun oc => length (filter (fun c : ocall => match c with (_, Some _, _, _) => true | _ => false end) oc)) obs).
 
-Fixpoint dfs (obs : list (list ocall)) (fuel : nat) (x : st) (vis : list (list N)) : bool * list (list N) :=
+(* the search gives up (answer: not admissible) after [budget] distinct model states; on the
+   unchanged code the first descent almost always succeeds (threads are tried in order of the
+   observed return stamps), so the budget only bounds the cost of refuting a bad history *)
+Definition budget : nat := 3 * 2000.
+
+Fixpoint dfs (obs : list (list ocall)) (fuel : nat) (x : st) (n : nat) (vis : list (list N)) : bool * nat * list (list N) :=
   match fuel with
-  | O => (false, vis)
+  | O => (false, n, vis)
   | S f =>
-    if goal obs x then (true, vis) else
-    (fix loop (acts : list actor) (vis : list (list N)) : bool * list (list N) :=
+    if goal obs x then (true, n, vis) else
+    (fix loop (acts : list actor) (n : nat) (vis : list (list N)) : bool * nat * list (list N) :=
        match acts with
-       | [] => (false, vis)
+       | [] => (false, n, vis)
        | a :: r =>
+         if Nat.ltb budget n then (false, n, vis) else
          match vstep obs x a with
-         | None => loop r vis
+         | None => loop r n vis
          | Some x' =>
            let k := key x' in
-           if mem k vis then loop r vis
-           else let '(b, vis') := dfs obs f x' (k :: vis) in
-                if b then (true, vis') else loop r vis'
+           if mem k vis then loop r n vis
+           else let '(b, n', vis') := dfs obs f x' (S n) (k :: vis) in
+                if b then (true, n', vis') else loop r n' vis'
          end
-       end) (order obs x) vis
+       end) (order obs x) n vis
   end.
 
 Definition c17f_case := (N * list (list ocall))%type.
 Definition c17f_ok (c : c17f_case) : bool :=
   let '(cp, obs) := c in
   let x0 := init (N.to_nat cp) (map (map (fun c : ocall => match c with (o, _, _, _) => o end)) obs) in
-  fst (dfs obs (S (measure x0)) x0 []).
+  fst (fst (dfs obs (S (measure x0)) x0 0%nat [])).
 (* the number of model states the search visited (for the evidence / tuning) *)
 Definition c17f_visited (c : c17f_case) : nat :=
   let '(cp, obs) := c in
   let x0 := init (N.to_nat cp) (map (map (fun c : ocall => match c with (o, _, _, _) => o end)) obs) in
-  length (snd (dfs obs (S (measure x0)) x0 [])).
+  snd (fst (dfs obs (S (measure x0)) x0 0%nat [])).
+
+(* ================================================================== transport.Client histories *)
+(* c17l_ok — free runs of a real transport.Client (live or dead peer, with or without handshake
+   timeout): the call/return history must be admissible in Model/Lifecycle.v. *)
+From Hop Require Import ConcBase Lifecycle.
+Open Scope N_scope.
+
+Definition Hs := CHandshake.
+Definition Xc := CClose.
+Definition Rd := CRead.
+Definition Wr := CWrite.
+
+Definition lcall := (cop * option N * list N * N)%type.
+
+Definition cpc_code (p : cpc) : list N :=
+  match p with
+  | CIdle => [0] | H_load => [1] | H_cas => [2] | H_io => [3] | H_add => [4] | H_open => [5] | H_wgdone => [6]
+  | H_store e => [7; e] | H_caserr e => [8; e] | H_signal e => [9; e] | H_recheck e => [10; e] | H_wait => [11]
+  | X_load => [12] | X_cas p => [13; p] | X_conn p => [14; p] | X_waiths => [15] | X_wgwait => [16]
+  | X_handle => [17] | X_store => [18] | X_signal => [19] | X_waitdone => [20] | X_ret => [21]
+  | Lifecycle.R_load => [22] | R_waitdone => [23] | R_ss => [24] | R_recv => [25] | W_check => [26] | W_sock => [27]
+  end.
+
+Definition ckey (x : cst) : list N :=
+  let s := csd x in
+  [cstate s; bN (hs_done s); bN (close_done s); cerr s; match close_err s with None => 0 | Some e => e + 1 end;
+   bN (conn_closed s); N.of_nat (wg s); match lis s with L_none => 0 | L_check => 1 | L_read => 2 | L_done => 3 end;
+   bN (handle_set s); bN (handle_closed s); N.of_nat (hpend s)] ++
+  flat_map (fun t => 99 :: N.of_nat (length (crets t)) :: match ck t with KRet => 0 | KRead => 1 | KWrite => 2 end
+                     :: cpc_code (cpcv t)) (cths x).
+
+Definition cdone_count (x : cst) : list nat := map (fun t => length (crets t)) (cths x).
+
+Definition cvalid_th (obs : list (list lcall)) (x x' : cst) (i : nat) : bool :=
+  match nth_error (cths x) i, nth_error (cths x') i, nth_error obs i with
+  | Some t, Some t', Some oc =>
+    let k := length (crets t) in
+    (match cpcv t with
+     | CIdle => match nth_error oc k with
+                | Some (_, _, need, _) => ge_all (cdone_count x) need
+                | None => false
+                end
+     | _ => true
+     end) &&
+    (if Nat.ltb k (length (crets t')) then
+       match nth_error oc k, nth_error (crets t') k with
+       | Some (_, Some r, _, _), Some (_, r') => r =? r'
+       | _, _ => false
+       end
+     else true)
+  | _, _, _ => false
+  end.
+
+Definition cvstep (obs : list (list lcall)) (x : cst) (a : cactor) : option cst :=
+  match cstepa x a with
+  | None => None
+  | Some x' => match a with
+               | CT i => if cvalid_th obs x x' i then Some x' else None
+               | _ => Some x'
+               end
+  end.
+
+Definition ccur_stamp (obs : list (list lcall)) (x : cst) (i : nat) : N :=
+  match nth_error (cths x) i, nth_error obs i with
+  | Some t, Some oc =>
+    match nth_error oc (length (crets t)) with Some (_, _, _, s) => s | None => 1000000000 end
+  | _, _ => 1000000000
+  end.
+Definition corder (obs : list (list lcall)) (x : cst) : list cactor :=
+  map CT (fold_right (insert_by (ccur_stamp obs x)) [] (seq 0 (length (cths x)))) ++ [CListen; CHClose].
+
+Definition cgoal (obs : list (list lcall)) (x : cst) : bool :=
+  cterminal x &&
+  beq_list Nat.eqb (cdone_count x)
+    (map (fun oc => length (filter (fun c : lcall => match c with (_, Some _, _, _) => true | _ => false end) oc)) obs).
+
+Fixpoint cdfs (obs : list (list lcall)) (fuel : nat) (x : cst) (n : nat) (vis : list (list N)) : bool * nat * list (list N) :=
+  match fuel with
+  | O => (false, n, vis)
+  | S f =>
+    if cgoal obs x then (true, n, vis) else
+    (fix loop (acts : list cactor) (n : nat) (vis : list (list N)) : bool * nat * list (list N) :=
+       match acts with
+       | [] => (false, n, vis)
+       | a :: r =>
+         if Nat.ltb budget n then (false, n, vis) else
+         match cvstep obs x a with
+         | None => loop r n vis
+         | Some x' =>
+           let k := ckey x' in
+           if mem k vis then loop r n vis
+           else let '(b, n', vis') := cdfs obs f x' (S n) (k :: vis) in
+                if b then (true, n', vis') else loop r n' vis'
+         end
+       end) (corder obs x) n vis
+  end.
+
+(* every thread step strictly advances a pc or consumes an op; loops (CAS retry, handshake wait)
+   are bounded by the memo table, the depth bound below is generous *)
+Definition c17l_case := (bool * bool * N * list (list lcall))%type.   (* peer alive, timeout, close result, history *)
+Definition c17l_ok (c : c17l_case) : bool :=
+  let '(pe, tm, cr, obs) := c in
+  let x0 := cinit pe tm cr (map (map (fun c : lcall => match c with (o, _, _, _) => o end)) obs) in
+  fst (fst (cdfs obs (40 * S (length (List.concat obs)) + 40) x0 0%nat [])).
+Definition c17l_visited (c : c17l_case) : nat :=
+  let '(pe, tm, cr, obs) := c in
+  let x0 := cinit pe tm cr (map (map (fun c : lcall => match c with (o, _, _, _) => o end)) obs) in
+  snd (fst (cdfs obs (40 * S (length (List.concat obs)) + 40) x0 0%nat [])).
